@@ -43,3 +43,42 @@ func TestVerifD40RejectedRetainRequestDoesNotMarkCheckpoints(t *testing.T) {
 		}
 	}()
 }
+
+// D40 (second half): the job announces "retain only N" when the publication of job checkpoint N has finished;
+// by then the operator may already have taken its checkpoint for N+1 (a new job checkpoint starts as soon as
+// N is complete, before N's file is written). RetainOnly dropped N+1 as well, so once N+1 became the job's
+// current checkpoint the operator state could not be restored any more
+// ("failed to find indicated checkpoint ID 4 in the checkpoints file").
+func TestVerifD40RetainKeepsNewerCheckpoint(t *testing.T) {
+	fs := storage.NewMemoryFilesystem()
+	db := dkv.Open(dkv.DBOptions{FileSystem: fs}, nil)
+	db.Put([]byte("k"), []byte("v3"))
+	if _, err := db.Checkpoint(3)(); err != nil {
+		t.Fatal(err)
+	}
+	db.Put([]byte("k"), []byte("v4"))
+	handle4, err := db.Checkpoint(4)()
+	if err != nil {
+		t.Fatal(err)
+	}
+	if err := db.UpdateRetainedCheckpoints([]uint64{3}); err != nil { // publication of 3 finished late
+		t.Fatal(err)
+	}
+	// the checkpoints document is rewritten by every save; take the handle of the latest one
+	handle4b, err := db.Checkpoint(5)()
+	if err != nil {
+		t.Fatal(err)
+	}
+	handle4.URI = handle4b.URI
+
+	defer func() {
+		if r := recover(); r != nil {
+			t.Fatalf("restoring from checkpoint 4 failed: %v", r)
+		}
+	}()
+	restored := dkv.Open(dkv.DBOptions{FileSystem: fs}, []recovery.CheckpointHandle{handle4})
+	got, err := restored.Get([]byte("k"))
+	if err != nil || string(got.Value()) != "v4" {
+		t.Fatalf("restored Get(k) = %v, %v; want v4", got, err)
+	}
+}
